@@ -4,6 +4,7 @@ package main
 // inlining, defers, lock discipline.
 
 import (
+	"os"
 	"sort"
 	"fmt"
 	"go/token"
@@ -235,6 +236,9 @@ func (fr *frame) applyCall(cc *ssa.CallCommon, st *bstate, site ssa.Instruction,
 		} else {
 			name = "dyn:" + valueLabel(cc.Value)
 			spec, pnames = fr.callSpecFor(cc)
+			if os.Getenv("GOVC_DEBUGCALLS") != "" {
+				fmt.Fprintf(os.Stderr, "dyncall in %s: %s type %s spec=%v\n", fr.fn.Name(), name, cc.Value.Type(), spec != nil)
+			}
 			if spec == nil {
 				if res, ok := fr.guardedDispatch(cc, fv, args, st, rt, site); ok {
 					return res
@@ -1507,6 +1511,9 @@ func (fr *frame) checkFrame(st *bstate) {
 			if allowed[key] || f.hs.sorts[key] == "" {
 				continue
 			}
+			if !f.e.ghostRelevant(strings.TrimPrefix(key, "G.")) {
+				continue // no clause of the property being checked mentions this ghost: its value cannot matter
+			}
 			before, after := f.hs.read(f.entryHeap, key), f.hs.read(st.heap, key)
 			if before != after {
 				f.oblige(st, fmt.Sprintf("%s#frame:unchanged:%s", fnShortName(fr.fn), key), "frame", nil, eq(after, before), "ghost state outside the declared frame is unchanged", fr.spec.Line)
@@ -1587,6 +1594,39 @@ func (fr *frame) checkFrame(st *bstate) {
 func (fr *frame) atomicCall(cc *ssa.CallCommon, args []Val, st *bstate) (Val, bool) {
 	f := fr.f
 	fn := cc.StaticCallee()
+	// package-level functions of sync/atomic on plain integer cells (AddUint64(&x, d), LoadInt32(&x), ...)
+	if fn != nil && fn.Signature.Recv() == nil && fn.Pkg != nil && fn.Pkg.Pkg.Path() == "sync/atomic" && len(args) > 0 {
+		pt, ok := cc.Args[0].Type().Underlying().(*types.Pointer)
+		if ok && kindOf(pt.Elem()) == KInt {
+			T := pt.Elem()
+			cur := f.load(st.heap, args[0], T)
+			name := fn.Name()
+			switch {
+			case strings.HasPrefix(name, "Add") && len(args) == 2:
+				nv := Val{K: KInt, T: T, Tm: f.c.define("atomic.add", sortInt, app("+", cur.Tm, args[1].Tm))}
+				st.heap = f.store(st.heap, args[0], T, nv)
+				f.exact["atomic."+name]++
+				return nv, true
+			case strings.HasPrefix(name, "Load") && len(args) == 1:
+				f.exact["atomic."+name]++
+				return f.nameVal("atomic.load", cur), true
+			case strings.HasPrefix(name, "Store") && len(args) == 2:
+				st.heap = f.store(st.heap, args[0], T, args[1])
+				f.exact["atomic."+name]++
+				return Val{K: KUnit}, true
+			case strings.HasPrefix(name, "Swap") && len(args) == 2:
+				old := f.nameVal("atomic.old", cur)
+				st.heap = f.store(st.heap, args[0], T, args[1])
+				f.exact["atomic."+name]++
+				return old, true
+			case strings.HasPrefix(name, "CompareAndSwap") && len(args) == 3:
+				okT := f.c.define("atomic.cas", sortBool, eq(cur.Tm, args[1].Tm))
+				st.heap = f.store(st.heap, args[0], T, Val{K: KInt, T: T, Tm: ite(okT, args[2].Tm, cur.Tm)})
+				f.exact["atomic."+name]++
+				return boolVal(okT), true
+			}
+		}
+	}
 	if fn == nil || fn.Signature.Recv() == nil || len(args) == 0 {
 		return Val{}, false
 	}
